@@ -1142,6 +1142,8 @@ def coin_law(gamma):
 
 
 def _coin_wrapper(gamma, random_state=None):
+    if not isinstance(random_state, Engine) and isinstance(getattr(random_state, "engine", None), Engine):
+        random_state = random_state.engine          # a pre-built mechanism driven through a ProxyRng
     if isinstance(random_state, Engine) and gamma >= 0:
         p1, p0, cut, _ = coin_law(float(gamma))
         ch = random_state._branch([p1, p0, cut])
@@ -2063,16 +2065,347 @@ def check_types(ctx, r, n):
             break
 
 
+# ------------------------------------------------------------------------------------------------------------------
+# CROSS-INSTANCE stratum: sequences of 2–4 instances built in ONE process whose arguments differ in exactly one field at
+# a time (or not at all: twins), in both orders.  The model is per-instance by construction, so every instance's
+# extracted law must be the model's law for ITS OWN arguments (a class-level memo / module cache keyed too coarsely makes
+# a later instance run with an earlier one's tables), and the later instances must still satisfy the eps-ratio.
+# ------------------------------------------------------------------------------------------------------------------
+class ProxyRng(seams.ScriptedSystemRandom):
+    """random source of a PRE-BUILT mechanism during symbolic enumeration: forwards to the engine of the current path"""
+
+    def __init__(self):
+        super().__init__()
+        self.engine = None
+
+    def random(self):
+        return self.engine.random()
+
+
+def cross_violation(ctx, family, seq, idx, x, xp, o, p, q, eps, extra=None):
+    ctx.violation(f"C01:{family}:cross-instance-state",
+                  f"{family} instance #{idx + 1} of a sequence of {len(seq)} built in one process ({seq[idx].get('_changed', 'base')} "
+                  f"changed w.r.t. its predecessor): P[{o}|{x}]={p!r} > e^{eps!r} * P[{o}|{xp}]={q!r} "
+                  f"(ratio {p / q if q else INF:.6g} vs bound {exp_eps(eps):.6g})",
+                  {"family": family, "mode": "cross", "sequence": seq, "target": idx, "x": x, "xp": xp, "atom": o, "p": p, "q": q,
+                   "eps": eps, **(extra or {})})
+
+
+def cross_ratio(ctx, family, seq, idx, x, xp, la, lb, eps, extra=None):
+    bound = exp_eps(eps)
+    for a, b, xa, xb in ((la, lb, x, xp), (lb, la, xp, x)):
+        for o in a.atoms():
+            p, q = a.p(o), b.p(o)
+            if p - a.unc(o) > bound * (q + b.unc(o)) * (1 + SLACK):
+                cross_violation(ctx, family, seq, idx, xa, xb, o, p, q, eps, extra)
+                return False
+    return True
+
+
+def cross_sequence(r, base, ops):
+    """base, then 1–3 steps each changing exactly one field (op(r, prev) -> (field name, new args)); sometimes back to
+    the first arguments at the end (A, B, A); in either order"""
+    seq = [dict(base, _changed="base")]
+    for _ in range(r.randint(1, 3)):
+        name, nxt = r.choice(ops)(r, {k: v for k, v in seq[-1].items() if k != "_changed"})
+        seq.append(dict(nxt, _changed=name))
+    if len(seq) < 4 and r.chance(0.3):
+        seq.append(dict({k: v for k, v in seq[0].items() if k != "_changed"}, _changed="back to the first arguments"))
+    if r.chance(0.5):
+        seq = list(reversed(seq))
+    # label every instance by the field(s) in which it differs from the one built just before it
+    for i, a in enumerate(seq):
+        if i == 0:
+            a["_changed"] = "first instance"
+        else:
+            diff = [k for k in a if k != "_changed" and a[k] != seq[i - 1].get(k)]
+            a["_changed"] = ", ".join(diff) if diff else "nothing (identical twin)"
+    return seq
+
+
+# ---- Exponential / PermuteAndFlip
+def _op_mono(r, a):
+    return "monotonic", dict(a, monotonic=not a["monotonic"])
+
+
+def _op_measure(r, a):
+    n = len(a["perm"])
+    if a["measure"] is None:
+        return "measure", dict(a, measure=[r.choice([1.0, 2.0, 0.5, 3.0]) for _ in range(n)])
+    if r.chance(0.3):
+        return "measure", dict(a, measure=None)
+    ms = list(a["measure"])
+    i = r.next() % n
+    ms[i] = ms[i] * r.choice([2.0, 0.5, 3.0])
+    return "measure", dict(a, measure=ms)
+
+
+def _op_cands(r, a):
+    return "candidates", dict(a, labels=not a["labels"])
+
+
+def _op_sens(r, a):
+    return "sensitivity", dict(a, sensitivity=a["sensitivity"] * r.choice([2.0, 2.0, 0.5, 3.0]))
+
+
+def _op_eps(r, a):
+    return "epsilon", dict(a, epsilon=a["epsilon"] * r.choice([2.0, 0.5, 1.5, 1.0 + 2.0 ** -30]))
+
+
+def _op_twin(r, a):
+    return "nothing (identical twin)", dict(a)
+
+
+def _op_order(r, a):
+    perm = list(a["perm"])
+    r.shuffle(perm)
+    return "utility order", dict(a, perm=perm)
+
+
+def cross_exp_build(a, util, paf):
+    ut = [util[i] for i in a["perm"]]
+    ms = [a["measure"][i] for i in a["perm"]] if a.get("measure") else None
+    cands = [f"c{i}" for i in range(len(ut))] if a["labels"] else None
+    kw = dict(epsilon=a["epsilon"], sensitivity=a["sensitivity"], utility=list(ut), monotonic=a["monotonic"], candidates=cands)
+    if paf:
+        prx = ProxyRng()
+        return M.PermuteAndFlip(random_state=prx, **kw), prx, ut, ms, cands
+    sc = Scripted(lambda rng: M.Exponential(measure=list(ms) if ms else None, random_state=rng, **kw))
+    return sc, None, ut, ms, cands
+
+
+def cross_exp_law(inst, prx, cands, paf):
+    conv = (lambda o: int(o[1:]) if cands and isinstance(o, str) and not o.startswith("ERR") else o)
+    if not paf:
+        return exp_law(inst, cands)[0]
+
+    def run(eng):
+        prx.engine = eng
+        try:
+            return conv(canon(inst.randomise()))
+        except Pruned:
+            raise
+        except Exception as e:  # noqa
+            return "ERR:" + type(e).__name__
+    with coin_interposed():
+        return enumerate_law(run, 1e-14, 400000)[0]
+
+
+def cross_exp_case(ctx, r, lines, cases, paf):
+    fam = "PermuteAndFlip" if paf else "Exponential"
+    n = r.randint(2, 4 if paf else 5)
+    sens = r.choice([1.0, 1.0, 2.0, 0.5])
+    base = {"epsilon": r.choice([1.5, 1.0, 0.5, 2.0, r.loguniform(0.05, 3.0)]), "sensitivity": sens, "monotonic": r.chance(0.5),
+            "measure": None if paf or r.chance(0.5) else [r.choice([1.0, 2.0, 0.5]) for _ in range(n)],
+            "labels": r.chance(0.3), "perm": list(range(n))}
+    ops = [_op_mono, _op_mono, _op_cands, _op_sens, _op_eps, _op_twin, _op_order] + ([] if paf else [_op_measure, _op_measure])
+    seq = cross_sequence(r, base, ops)
+    u = [r.randint(-3, 3) * sens for _ in range(n)]
+    # neighbour at exactly the base sensitivity: the tight non-monotone pattern, or only increasing (valid for monotonic)
+    o = r.next() % n
+    if r.chance(0.6):
+        up = [a + sens for a in u]
+        up[o] = u[o] - sens
+    else:
+        up = [a + (sens if r.chance(0.6) else 0.0) for a in u]
+    built = {}
+    try:
+        for tag, util in (("utility", u), ("utility_p", up)):
+            built[tag] = [cross_exp_build(a, util, paf) for a in seq]          # all instances first, in sequence order
+        laws = {tag: [cross_exp_law(b[0], b[1], b[4], paf) for b in built[tag]] for tag in built}
+    except (ValueError, TypeError, ZeroDivisionError, FloatingPointError) as e:
+        ctx.count("cross_constructor_refused:" + type(e).__name__)
+        ctx.case(None)
+        return
+    for i, a in enumerate(seq):
+        ui, upi = built["utility"][i][2], built["utility_p"][i][2]
+        if within(ui, upi, a["sensitivity"], a["monotonic"]) or within(upi, ui, a["sensitivity"], a["monotonic"]):
+            if not cross_ratio(ctx, fam, seq, i, ui, upi, laws["utility"][i], laws["utility_p"][i], a["epsilon"],
+                               {"utility": u, "utility_p": up}):
+                break
+    ctx.case(("cross-" + fam, repr(seq), tuple(u), tuple(up)))
+    ctx.count("cross_instances", 2 * len(seq))
+    for tag in ("utility", "utility_p"):
+        for i, a in enumerate(seq):
+            _, _, ut, ms, _ = built[tag][i]
+            c = {"epsilon": a["epsilon"], "sensitivity": a["sensitivity"], "monotonic": a["monotonic"], "measure": ms}
+            lines.append(exp_line("paflaw" if paf else "exp", c, ut))
+            cases.append(("elaw", fam, seq, i, tag, laws[tag][i], paf))
+
+
+# ---- Binary / Geometric family / categorical
+def cross_simple_case(ctx, r, lines, cases, fam):
+    if fam == "Binary":
+        base = {"epsilon": r.choice([1.0, 0.5, 2.0, r.loguniform(0.05, 5.0)]), "value0": "a", "value1": "b"}
+        ops = [_op_eps, _op_twin, lambda r, a: ("labels swapped", dict(a, value0=a["value1"], value1=a["value0"]))]
+        seq = cross_sequence(r, base, ops)
+        insts = [Scripted(lambda rng, a=a: M.Binary(epsilon=a["epsilon"], value0=a["value0"], value1=a["value1"], random_state=rng))
+                 for a in seq]
+        for i, (a, sc) in enumerate(zip(seq, insts)):
+            laws = {v: binary_law(sc, v)[0] for v in ("a", "b")}
+            cross_ratio(ctx, fam, seq, i, "a", "b", laws["a"], laws["b"], a["epsilon"])
+            lines.append(f"binarylaw {fl(a['epsilon'])}")
+            cases.append(("blaw", fam, seq, i, laws))
+        ctx.case(("cross-binary", repr(seq)))
+        ctx.count("cross_instances", len(seq))
+        return
+    if fam == "geom":
+        v = r.choice(["p", "t", "t", "f"])
+        sens = r.choice([1, 1, 2, 3])
+        x = r.randint(-20, 20)
+        base = {"variant": v, "epsilon": r.choice([1.0, 0.5, 2.0, r.uniform(0.4, 3.0)]) * sens, "sensitivity": sens,
+                "lower": None if v == "p" else x - r.randint(0, 6), "upper": None if v == "p" else x + r.randint(1, 6)}
+        ops = [_op_eps, _op_twin, lambda r, a: ("sensitivity", dict(a, sensitivity=a["sensitivity"] + r.choice([1, 2])))]
+        if v != "p":
+            ops += [lambda r, a: ("lower", dict(a, lower=a["lower"] - r.choice([1, 2, 5]) - (0.5 if a["variant"] == "f" and r.chance(0.3) and a["lower"] == int(a["lower"]) else 0))),
+                    lambda r, a: ("upper", dict(a, upper=a["upper"] + r.choice([1, 2, 5])))] * 2
+        seq = cross_sequence(r, base, ops)
+        xp = x + r.choice([-1, 1]) * r.choice([sens, 1])
+        insts = [Scripted(build_geom(a["variant"], a["epsilon"], a["sensitivity"], a["lower"], a["upper"])) for a in seq]
+        for i, (a, sc) in enumerate(zip(seq, insts)):
+            s_ = a["epsilon"] / a["sensitivity"]
+            laws = {val_: geom_full_law(sc, a["variant"], val_, s_)[0] for val_ in {x, xp}}
+            if any(isinstance(o, str) for l in laws.values() for o in l.mass):
+                ctx.count("geom_error_outcome_skipped")
+                continue
+            if abs(x - xp) <= a["sensitivity"]:
+                cross_ratio(ctx, GEOM_NAME[a["variant"]], seq, i, x, xp, laws[x], laws[xp], a["epsilon"])
+            c = dict({k: a[k] for k in ("variant", "epsilon", "sensitivity", "lower", "upper")}, x=x, xp=xp)
+            K = min(6000, int(38.0 / s_) + 3)
+            lines.append(geom_model_pmf_lines(c, K))
+            cases.append(("pmf", c, K, laws))
+            for val_ in sorted({x, xp}):
+                pl = geom_post_line(c, [val_ + k for k in range(-K, K + 1)])
+                if pl:
+                    lines.append(pl)
+                    cases.append(("post", c, val_, K))
+        ctx.case(("cross-geom", repr(seq), x, xp))
+        ctx.count("cross_instances", len(seq))
+        return
+    # ExponentialCategorical
+    n = r.randint(2, 4)
+    labels = r.sample(LABEL_POOL, n)
+    ul = [[labels[i], labels[j], float(r.randint(0, 4)) * 0.5] for i in range(n) for j in range(i + 1, n)]
+    if all(t[2] == 0 for t in ul):
+        ul[0][2] = 1.0
+    base = {"epsilon": r.choice([1.0, 0.5, 2.0, r.loguniform(0.05, 4.0)]), "utility_list": ul}
+
+    def op_order(r, a):
+        l2 = [list(t) for t in a["utility_list"]]
+        r.shuffle(l2)
+        return "utility list order", dict(a, utility_list=l2)
+
+    def op_orient(r, a):
+        l2 = [list(t) for t in a["utility_list"]]
+        i = r.next() % len(l2)
+        l2[i] = [l2[i][1], l2[i][0], l2[i][2]]
+        return "orientation of one pair", dict(a, utility_list=l2)
+
+    def op_repeat(r, a):
+        l2 = [list(t) for t in a["utility_list"]]
+        l2.append(list(l2[r.next() % len(l2)]))
+        return "one pair repeated", dict(a, utility_list=l2)
+
+    def op_value(r, a):
+        l2 = [list(t) for t in a["utility_list"]]
+        i = r.next() % len(l2)
+        l2[i][2] = l2[i][2] + r.choice([0.5, 1.0, 2.0])
+        return "one utility value", dict(a, utility_list=l2)
+    seq = cross_sequence(r, base, [_op_eps, _op_twin, op_order, op_orient, op_repeat, op_value, op_value])
+    try:
+        insts = [Scripted(lambda rng, a=a: M.ExponentialCategorical(epsilon=a["epsilon"], utility_list=[list(t) for t in a["utility_list"]],
+                                                                  random_state=rng)) for a in seq]
+    except (ValueError, ZeroDivisionError) as e:
+        ctx.count("cross_constructor_refused:" + type(e).__name__)
+        return
+    ranks = rank_of(labels)
+    for i, (a, sc) in enumerate(zip(seq, insts)):
+        laws = {}
+        for x in labels:
+            laws[x] = Law()
+            laws[x].add_segs(extract_steps(lambda k, x=x: sc.at(k, x), 0, GRID - 1))
+        ok = True
+        for x in labels:
+            for xp in labels:
+                if ok and x != xp:
+                    ok = cross_ratio(ctx, "ExponentialCategorical", seq, i, x, xp, laws[x], laws[xp], a["epsilon"])
+        triples = [(ranks[p], ranks[q], float(v)) for p, q, v in a["utility_list"]]
+        lines.append(cat_line("catlaw", a["epsilon"], triples))
+        cases.append(("claw", "ExponentialCategorical", seq, i, ranks, laws))
+    ctx.case(("cross-cat", repr(seq)))
+    ctx.count("cross_instances", len(seq))
+
+
+def check_cross(ctx, r, n):
+    lines, cases = [], []
+    for _ in range(n):
+        if over_time(ctx, 1.0):
+            break
+        m = r.u01()
+        if m < 0.45:
+            cross_exp_case(ctx, r, lines, cases, paf=False)
+        elif m < 0.6:
+            cross_exp_case(ctx, r, lines, cases, paf=True)
+        elif m < 0.65:
+            cross_simple_case(ctx, r, lines, cases, "Binary")
+        elif m < 0.8:
+            cross_simple_case(ctx, r, lines, cases, "geom")
+        else:
+            cross_simple_case(ctx, r, lines, cases, "cat")
+    outs = leanio.run_driver("Discrete", lines) if lines else []
+    geom_cases, geom_outs = [], []
+    for cs, out in zip(cases, outs):
+        kind = cs[0]
+        if kind in ("pmf", "post"):
+            geom_cases.append(cs)
+            geom_outs.append(out)
+            continue
+        _, fam, seq, i = cs[:4]
+        where = {"sequence": seq, "instance": i, "changed": seq[i].get("_changed")}
+        if not out.startswith("ok"):
+            ctx.disagree("cross." + fam + ".driver", where, out, None)
+            continue
+        if kind == "elaw":
+            _, _, _, _, tag, law, paf = cs
+            parts = out.split(" | ")
+            pmf = [b2f(int(z)) for z in (parts[0].split()[1:] if paf else parts[1].split())]
+            if any(q != q for q in pmf):
+                ctx.count("exp_nan_law_skipped")
+                continue
+            compare_law(ctx, "cross-instance." + fam + ".law", {**where, "which": tag}, law, {j: q for j, q in enumerate(pmf)},
+                        extra_unc=(len(pmf) + 2) * 2.0 ** -52 + law.cut)
+        elif kind == "blaw":
+            laws = cs[4]
+            pf = b2f(int(out.split()[1]))
+            compare_law(ctx, "cross-instance.Binary.law", where, laws["a"], {"a": 1 - pf, "b": pf}, extra_unc=4 * 2.0 ** -52)
+            compare_law(ctx, "cross-instance.Binary.law", where, laws["b"], {"b": 1 - pf, "a": pf}, extra_unc=4 * 2.0 ** -52)
+        elif kind == "claw":
+            ranks, laws = cs[4], cs[5]
+            parts = out.split(" | ")
+            head = parts[0].split()
+            nn = int(head[3])
+            dom = [int(z) for z in head[4:4 + nn]]
+            rows = [b2f(int(z)) for z in parts[2].split()]
+            inv = {v: k for k, v in ranks.items()}
+            for ii, d in enumerate(dom):
+                model = {inv[t]: rows[ii * nn + j] for j, t in enumerate(dom)}
+                compare_law(ctx, "cross-instance.ExponentialCategorical.law", {**where, "value": inv[d]}, laws[inv[d]], model,
+                            extra_unc=(nn + 2) * 2.0 ** -52)
+    if geom_cases:
+        _geom_compare(ctx, geom_cases, geom_outs)
+
+
 def check(ctx):
     check_binary(ctx, ctx.fork("binary"), ctx.budget(60, 300))
-    check_geometric(ctx, ctx.fork("geometric"), ctx.budget(110, 800))
-    check_exponential(ctx, ctx.fork("exponential"), ctx.budget(450, 3000))
+    check_geometric(ctx, ctx.fork("geometric"), ctx.budget(95, 800))
+    check_exponential(ctx, ctx.fork("exponential"), ctx.budget(400, 3000))
     check_exponential(ctx, ctx.fork("negative-measure"), ctx.budget(20, 200), negative=True)
     check_bernoulli(ctx, ctx.fork("bernoulli"), ctx.budget(60, 300))
     check_paf(ctx, ctx.fork("paf"), ctx.budget(100, 300))
-    check_categorical(ctx, ctx.fork("categorical"), ctx.budget(300, 2500))
+    check_categorical(ctx, ctx.fork("categorical"), ctx.budget(260, 2500))
     check_hierarchical(ctx, ctx.fork("hierarchical"), ctx.budget(140, 1000))
-    check_types(ctx, ctx.fork("types"), ctx.budget(200, 2500))
+    check_types(ctx, ctx.fork("types"), ctx.budget(170, 2500))
+    check_cross(ctx, ctx.fork("cross-instance"), ctx.budget(60, 900))
 
 
 # ------------------------------------------------------------------------------------------------------------------
@@ -2141,9 +2474,40 @@ def still_fails_typed(d):
     return a >= MIN_MASS and a - la.unc(o) > exp_eps(eps) * (b + lb.unc(o)) * (1 + SLACK), a, b
 
 
+def still_fails_cross(d):
+    """rebuild the whole sequence in order (for both inputs) and re-extract the law of the target instance"""
+    fam, seq, i, x, xp, o, eps = d["family"], d["sequence"], d["target"], d["x"], d["xp"], d["atom"], d["eps"]
+    seq = [{k: v for k, v in a.items() if k != "_changed"} for a in seq]
+    if fam in ("Exponential", "PermuteAndFlip"):
+        paf = fam == "PermuteAndFlip"
+        built = {tag: [cross_exp_build(a, d[tag], paf) for a in seq] for tag in ("utility", "utility_p")}
+        ka, kb = ("utility", "utility_p") if list(built["utility"][i][2]) == list(x) else ("utility_p", "utility")
+        la = cross_exp_law(built[ka][i][0], built[ka][i][1], built[ka][i][4], paf)
+        lb = cross_exp_law(built[kb][i][0], built[kb][i][1], built[kb][i][4], paf)
+    elif fam == "Binary":
+        insts = [Scripted(lambda rng, a=a: M.Binary(epsilon=a["epsilon"], value0=a["value0"], value1=a["value1"], random_state=rng))
+                 for a in seq]
+        la, lb = binary_law(insts[i], x)[0], binary_law(insts[i], xp)[0]
+    elif fam == "ExponentialCategorical":
+        insts = [Scripted(lambda rng, a=a: M.ExponentialCategorical(epsilon=a["epsilon"], utility_list=[list(t) for t in a["utility_list"]],
+                                                                  random_state=rng)) for a in seq]
+        la, lb = Law(), Law()
+        la.add_segs(extract_steps(lambda k: insts[i].at(k, x), 0, GRID - 1))
+        lb.add_segs(extract_steps(lambda k: insts[i].at(k, xp), 0, GRID - 1))
+    else:
+        insts = [Scripted(build_geom(a["variant"], a["epsilon"], a["sensitivity"], a["lower"], a["upper"])) for a in seq]
+        s_ = seq[i]["epsilon"] / seq[i]["sensitivity"]
+        la = geom_full_law(insts[i], seq[i]["variant"], x, s_, eta_div=16.0)[0]
+        lb = geom_full_law(insts[i], seq[i]["variant"], xp, s_, eta_div=16.0)[0]
+    a, b = la.p(o), lb.p(o)
+    return a >= MIN_MASS and a - la.unc(o) > exp_eps(eps) * (b + lb.unc(o)) * (1 + SLACK), a, b
+
+
 def still_fails(d):
     if d.get("mode") == "typed":
         return still_fails_typed(d)
+    if d.get("mode") == "cross":
+        return still_fails_cross(d)
     fam, p, x, xp, o, eps = d["family"], d["params"], d["x"], d["xp"], d["atom"], d["eps"]
     if d.get("mode") == "atom":
         v = {"Geometric": "p", "GeometricTruncated": "t"}[fam]
